@@ -335,6 +335,12 @@ func (s *StreamJoin) receiveRecord(ctx ExecutionContext, produce ProduceFn, myRe
 		}
 		key[i] = value
 	}
+	for i := range key {
+		if key[i].TypeID == octosql.TypeIDNull {
+			// The key comes from equality conditions, and NULL is never equal to anything, so this record can't match.
+			return nil
+		}
+	}
 
 	if !oneStreamRemains {
 		// Update count in my record tree
